@@ -43,7 +43,12 @@ class C06(object):
             "with p(z) > 0 of the second singular value of p(x,y|z)/sqrt(p(x|z)p(y|z)), in [0,1], 0 iff X and Y are "
             "independent given Z, symmetric in the groups, = the unconditional value when Z is independent of (X,Y), "
             "the pmf-level entry point on the 3-d array, and rho^2 a largest root of the model's exact per-slice "
-            "characteristic polynomials")
+            "characteristic polynomials. Kind `inplace`: a pair / restricted / lautum case evaluated on two distribution "
+            "objects, then the probabilities of one or both objects changed IN PLACE (d[o] = v per outcome, d.pmf[i] = v, "
+            "d.pmf[:] = vector, integer weights followed by d.normalize(); new values: a fresh vector over the stored or the "
+            "positive outcomes, a rotation of the old values, or the other object's values when both store the same "
+            "outcomes, so that D(p||q) becomes 0) and the whole pair / restricted / lautum check evaluated AGAIN on the "
+            "same objects against the definitions (and the model) on the probabilities they hold now")
     tolerances = {'closed forms': 'atol 1e-9', 'chernoff (scipy bounded scalar minimiser, xatol 1e-5)': '1e-4 relative', 'emd (LP)': '1e-7',
                   'maximum correlation': '|sigma2^2 is a root of the exact characteristic polynomial| <= 1e-8',
                   'f-divergences': 'atol 1e-9 (relative above 1)', 'emd with explicit costs (LP)': '1e-7 relative',
@@ -108,9 +113,55 @@ class C06(object):
         # conditional maximum correlation (crvs given); appended last for the same reason
         for _ in range(70 if tier == 'quick' else 5000):
             yield self.gen_condmaxcorr(rng)
+        # evaluation, in-place change of the probabilities of the same objects, second evaluation; appended after the
+        # streams above for the same reason
+        for _ in range(90 if tier == 'quick' else 6000):
+            yield self.gen_inplace(rng)
         # one fixed pair of the input class of the known f_divergence finding (P = {0: 1/4, 1: 3/4} inside
         # Q = {0: 1/4, 1: 1/4, 2: 1/2}), so that every run meets it whatever the seed
         yield self.fixed_support_mismatch_pair()
+
+    UPDATE_MODES = ['setitem', 'setitem', 'pmf-index', 'pmf-vector', 'weights-normalize']
+    UPDATE_VALUES = ['fresh-stored', 'fresh-positive', 'rotate', 'copy-other', 'copy-other']
+
+    def gen_inplace(self, rng):
+        """A pair / restricted / lautum case (as in the main stream) plus the description of an in-place change of the
+        probabilities of the objects it is evaluated on."""
+        kind = rng.choice(['pair', 'pair', 'restricted', 'restricted', 'lautum'])
+        klass = rng.choice(['str', 'tuple', 'mixed'])
+        n = rng.randint(1, 3) if kind == 'pair' else rng.randint(2, 3)
+        for _ in range(6):
+            a = gen.rand_dist_case(rng, nmin=n, nmax=n, bases=['linear'], klasses=(klass,), allow_space=False, allow_names=False)
+            if len(a['outs']) >= 2:                # a single stored outcome leaves nothing to change
+                break
+        rel = rng.choice(['equal', 'equal', 'nested', 'overlap', 'same', 'same', 'shifted'])
+        b = self.related(rng, a, rel)
+        if rng.random() < 0.4:
+            full = self.full_space(a, b)
+            rng.shuffle(full)
+            b['space'] = ['list', full]
+            b['sparse'] = rng.random() < 0.5
+            b['trim'] = False
+        gen.avoid_subnull(a)
+        gen.avoid_subnull(b)
+        base = {'kind': kind, 'a': a, 'b': b, 'rel': rel, 'alpha': rng.choice(ALPHAS)}
+        if kind == 'restricted':
+            vars_ = list(range(n))
+            rng.shuffle(vars_)
+            k = rng.randint(1, n)
+            base['rvs'] = vars_[:k] if rng.random() < 0.5 else sorted(vars_[:k])
+            base['crvs'] = vars_[k:][:rng.randint(0, n - k)]
+        if kind == 'lautum':
+            vs = list(range(n))
+            rng.shuffle(vs)
+            k1 = rng.randint(1, max(1, n - 1))
+            g1, g2 = sorted(vs[:k1]), sorted(vs[k1:k1 + rng.randint(1, max(1, n - k1))])
+            base['rvs'] = [g1, g2] if g2 else [[0], [1]]
+            base['crvs'] = []
+        targets = ['a'] if kind == 'lautum' else rng.choice([['a'], ['b'], ['b'], ['a', 'b'], ['b', 'a']])
+        return {'kind': 'inplace', 'base': base,
+                'updates': [{'target': t, 'mode': rng.choice(self.UPDATE_MODES), 'values': rng.choice(self.UPDATE_VALUES),
+                             'style': rng.choice(['dyadic', 'small', 'uneven']), 'seed': rng.randrange(10 ** 6)} for t in targets]}
 
     def full_space(self, a, b):
         alph = [sorted(set(x) | set(y)) for x, y in zip(a['alphabets'], b['alphabets'])]
@@ -288,7 +339,9 @@ class C06(object):
 
     def tables(self, case):
         klass = case['a']['klass']
-        ds = [gen.build(case[k]) for k in ('a', 'b')]
+        # kind `inplace` hands over the live objects (whose probabilities were changed in place) with the tables they
+        # are meant to hold now; every other kind builds fresh objects
+        ds = list(case['_objs']) if case.get('_objs') else [gen.build(case[k]) for k in ('a', 'b')]
         tabs = []
         for k in ('a', 'b'):
             tabs.append({tuple(o): Fraction(p) for o, p in zip(case[k]['outs'], case[k]['pmf'])})
@@ -440,6 +493,115 @@ class C06(object):
             r.site = 'dit.divergences.f_divergence.support-mismatch'
             r.detail = dict(r.detail or {}, fdiv_support_mismatch=True, fdiv_f=name, fdiv_got=val, fdiv_textbook=ref)
             return
+
+    def run_inplace(self, case, drv, r):
+        """Evaluate, change the probabilities of the SAME objects in place, evaluate again: every divergence is a
+        function of the probabilities the distributions hold at the time of the call."""
+        import random as _random
+        base = case['base']
+        kind = base['kind']
+        judge = getattr(self, 'run_' + kind)
+        klass, ds, tabs = self.tables(base)
+        objs = dict(zip('ab', ds))
+        r.features += ['base=%s' % kind, 'rel=%s' % base.get('rel')]
+        # first evaluation (the pair / restricted / lautum check itself, on these objects)
+        r1 = core.Result()
+        r1.site = r.site
+        judge(dict(base, _objs=ds), drv, r1)
+        r.features += r1.features
+        # the deferred judgement of the known f_divergence finding runs last and only when nothing else of the evaluation
+        # failed: such a first evaluation is complete, the update and the second evaluation follow, and the known finding
+        # is handed on at the end unless the second evaluation fails otherwise
+        known1 = r1.bad() and str(r1.site).endswith('f_divergence.support-mismatch')
+        if r1.bad() and not known1:
+            r.oracle_fail, r.mismatch, r.detail, r.site = r1.oracle_fail, r1.mismatch, r1.detail, r1.site
+            return
+        # what the objects store: outcome -> exact probability (zero for stored outcomes the case does not list)
+        cur = {}
+        for k in 'ab':
+            t = {tuple(o): Fraction(p) for o, p in zip(base[k]['outs'], base[k]['pmf'])}
+            cur[k] = [(tuple(gen.from_py(o, klass)), t.get(tuple(gen.from_py(o, klass)), Fraction(0))) for o in objs[k].outcomes]
+        before = {k: list(v) for k, v in cur.items()}
+        notes = []
+        for u in case['updates']:
+            k, other = u['target'], {'a': 'b', 'b': 'a'}[u['target']]
+            d = objs[k]
+            stored = [o for o, _ in cur[k]]
+            old = [p for _, p in cur[k]]
+            rr = _random.Random(u['seed'])
+            values = u['values']
+            if values == 'copy-other' and not (kind != 'lautum' and sorted(stored) == sorted(o for o, _ in cur[other])):
+                values = 'fresh-positive'
+            if values == 'copy-other':
+                oth = dict(cur[other])
+                new = [oth[o] for o in stored]
+            elif values == 'rotate':
+                new = old[1:] + old[:1]
+            elif values == 'fresh-stored':
+                new = list(gen.rand_prob_vector(rr, len(stored), u['style'])[0])
+            else:
+                pos = [i for i, p in enumerate(old) if p > 0]
+                pv = gen.rand_prob_vector(rr, len(pos), u['style'])[0]
+                new = [Fraction(0)] * len(stored)
+                for i, p in zip(pos, pv):
+                    new[i] = p
+            for _ in range(3):
+                if new != old or len(stored) < 2:
+                    break
+                values = 'fresh-stored'            # the drawn update would change nothing
+                new = list(gen.rand_prob_vector(rr, len(stored), u['style'])[0])
+            n_before = len(d.outcomes)
+            mode = u['mode']
+            if mode == 'setitem':
+                for o, p in zip(d.outcomes, new):
+                    d[o] = float(p)
+            elif mode == 'pmf-index':
+                for i, p in enumerate(new):
+                    d.pmf[i] = float(p)
+            elif mode == 'pmf-vector':
+                d.pmf[:] = np.array([float(p) for p in new])
+            else:
+                den = 1
+                for p in new:
+                    den = den * p.denominator // math.gcd(den, p.denominator)
+                mult = rr.choice([1, 2, 3, 5])
+                for o, p in zip(d.outcomes, new):
+                    d[o] = float(p * den * mult)          # integer weights ...
+                d.normalize()                              # ... normalised in place
+            if len(d.outcomes) != n_before:
+                raise AssertionError('harness: the in-place update changed the number of stored outcomes')
+            cur[k] = list(zip(stored, new))
+            r.features += ['update=%s' % mode, 'values=%s' % values]
+            notes.append('%s by %s to %s' % (k, mode, '{%s}' % ', '.join('%s: %s' % (''.join(str(x) for x in o), p) for o, p in cur[k])))
+        changed = [k for k in 'ab' if cur[k] != before[k]]
+        r.features += ['updated=%s' % '+'.join(u['target'] for u in case['updates']), 'changed=%s' % bool(changed),
+                       'became-equal=%s' % (kind != 'lautum' and dict((o, p) for o, p in cur['a'] if p > 0) == dict((o, p) for o, p in cur['b'] if p > 0))]
+        # second evaluation: the same objects against the definitions on the probabilities they hold now
+        now = dict(base, _objs=ds)
+        for k in 'ab':
+            now[k] = dict(base[k], outs=[list(o) for o, _ in cur[k]], pmf=[str(p) for _, p in cur[k]])
+        r2 = core.Result()
+        r2.site = r.site
+        try:
+            judge(now, drv, r2)
+        except core.DriverError:
+            raise
+        except Exception as e:  # noqa
+            r2.oracle_fail = '%s raised %s: %s' % (kind, type(e).__name__, str(e)[:160])
+        r.features += ['second:' + f for f in r2.features]
+        r.nontrivial = bool(r1.nontrivial and r2.nontrivial and changed)
+        r.detail = {'first': r1.detail, 'second': r2.detail, 'updates': notes}
+        if str(r2.site).endswith('f_divergence.support-mismatch') or (known1 and not r2.bad()):
+            # the deferred judgement of the known f_divergence finding (runs last and only when nothing else failed):
+            # handed on as it is, under its own site
+            rk = r2 if r2.bad() else r1
+            r.oracle_fail, r.mismatch, r.detail, r.site = rk.oracle_fail, rk.mismatch, rk.detail, rk.site
+            return
+        where = 'after the in-place update of %s (same objects, evaluated once before): ' % '; '.join(notes)
+        if r2.oracle_fail:
+            r.oracle_fail = where + r2.oracle_fail
+        if r2.mismatch:
+            r.mismatch = where + r2.mismatch
 
     def run_pair(self, case, drv, r):
         dit = import_dit()
